@@ -17,4 +17,4 @@ def run(ck):
 
 
 def replay(ck, path):
-    run(ck)
+    engine.replay(ck, 'C08', path, run)
